@@ -656,7 +656,9 @@ func (w *Writer) name(n []byte) {
 	}
 	for _, b := range n {
 		if b == 0 {
-			panic("pdfsyn: NUL in a name")
+			// ISO 32000-1 7.3.5 takes the null character out of what a name may hold; the
+			// #-notation can still spell it, and the property speaks of arbitrary bytes
+			w.feat("name-nul-byte")
 		}
 		must := b == '#' || !isRegular(b) || b < 0x21 || b > 0x7e
 		if b >= 0x80 && w.P.Name == NamePlain && w.R.Intn(4) == 0 {
